@@ -765,6 +765,10 @@ def state_census(text: str) -> dict[str, list[str]]:
         raise TranslateError('class Tokenizer not found')
     out: dict[str, list[str]] = {k: [] for k in CENSUS_KEYS}
     out['cached_options'] = option_census(mod, cls)
+    from translate.c02_tables import module_level_bindings
+    where = module_level_bindings(mod, 'Tokenizer')
+    if len(where) != 1:
+        out['class_data'].append(f'Tokenizer is bound {len(where)} times at module level (lines {where}): the class that is read is not necessarily the one callers get')
     methods = {f.name: f for f in cls.body if isinstance(f, (ast.FunctionDef, ast.AsyncFunctionDef))}
     for n in cls.body:
         if isinstance(n, ast.Assign):
@@ -906,7 +910,14 @@ def _show(t: tuple, depth: int = 0) -> list[str]:
 
 
 def translate() -> tuple[str, dict]:
-    trees = trees_of_source(src_text('tokenizer.py'))
+    """The trees AND the state census.  When the tree executor fails closed (statement outside its language) invalid trees are
+    written (side info `trees_failed_closed`), but the census - which needs no execution - is still produced, so that its named
+    obligations are evaluated for exactly the code the executor could not follow."""
+    try:
+        trees = trees_of_source(src_text('tokenizer.py'))
+    except TranslateError as e:
+        cen = state_census(src_text('tokenizer.py'))
+        return _empty(cen), {'state_census': cen, 'trees_failed_closed': str(e), 'segments': {}, 'leaves': 0}
     names = {0: 'gt_dispatch', 1: 'gt_brack', 2: 'gt_paren', 3: 'gt_directive', 4: 'gt_bare', 5: 'gt_star', 6: 'gt_line', 7: 'gt_cprefix'}
     lines = [
         '(* GENERATED by translate/c02_gettoken.py from /repo/src/srctools/tokenizer.py (Tokenizer._get_token, _handle_comment). Do not edit. *)',
@@ -933,8 +944,13 @@ def translate() -> tuple[str, dict]:
     return '\n'.join(lines), side
 
 
-def _empty() -> str:
+def _empty(cen: dict[str, list[str]] | None = None) -> str:
     names = ['gt_dispatch', 'gt_brack', 'gt_paren', 'gt_directive', 'gt_bare', 'gt_star', 'gt_line', 'gt_cprefix']
+    if cen is not None:
+        return ('(* GENERATED by translate/c02_gettoken.py: the tree executor FAILED CLOSED; invalid trees, real state census. *)\n'
+                'From Coq Require Import NArith List.\nFrom SV Require Import Text.GtTable.\nImport ListNotations.\nOpen Scope N_scope.\n'
+                + ''.join(f'Definition {n} : tree := Leaf (false, 0, 0, [], 9, 0, 0).\n' for n in names)
+                + ''.join(f'Definition st_{k} : list (list N) := {_coq_strs(cen[k])}.\n' for k in CENSUS_KEYS))
     return ('(* GENERATED by translate/c02_gettoken.py: the translator FAILED CLOSED; invalid trees. *)\n'
             'From Coq Require Import NArith List.\nFrom SV Require Import Text.GtTable.\nImport ListNotations.\nOpen Scope N_scope.\n'
             + ''.join(f'Definition {n} : tree := Leaf (false, 0, 0, [], 9, 0, 0).\n' for n in names)
